@@ -83,6 +83,7 @@ type Step struct {
 	Upd  *JUpd    `json:"upd,omitempty"`
 	S    []int    `json:"s,omitempty"`
 	Rem  []int    `json:"rem,omitempty"`
+	Bad  string   `json:"bad,omitempty"` // partial family: which hash of an honest proof is replaced (badvrem)
 	Lab  []int    `json:"lab,omitempty"` // relabelling in force after the step (spec/Core.tla marks.lab)
 	// light client / partial / proofops families
 	Held  []int   `json:"held,omitempty"`
